@@ -127,4 +127,158 @@ theorem slice_get (a : Array UInt8) (off len i : Nat) (h : i < min len (a.size -
   simp
 
 
+
+/-! ### big-endian round trip, memory growth, `ByteArray.toList` (for the MSTORE / MLOAD theorems) -/
+
+def beFold (l : List Nat) : Nat := l.foldl (fun acc b => acc * 256 + b) 0
+
+theorem foldl_map_toNat (bs : List UInt8) (a : Nat) :
+    bs.foldl (fun acc b => acc * 256 + b.toNat) a = (bs.map (·.toNat)).foldl (fun acc b => acc * 256 + b) a := by
+  induction bs generalizing a with
+  | nil => rfl
+  | cons b t ih => simp [List.foldl_cons, ih]
+
+def toBE (k n : Nat) : List Nat := (List.range k).map (fun j => (n >>> (8 * (k - 1 - j))) % 256)
+
+theorem toBE_succ (k n : Nat) : toBE (k + 1) n = toBE k (n / 256) ++ [n % 256] := by
+  unfold toBE
+  rw [List.range_succ, List.map_append]
+  congr 1
+  · apply List.map_congr_left
+    intro j hj
+    have hj' : j < k := List.mem_range.mp hj
+    have e : 8 * (k + 1 - 1 - j) = 8 + 8 * (k - 1 - j) := by omega
+    rw [e, Nat.shiftRight_add]
+    simp [Nat.shiftRight_eq_div_pow]
+  · simp
+
+theorem beFold_toBE (k : Nat) : ∀ n, beFold (toBE k n) = n % 256 ^ k := by
+  induction k with
+  | zero => intro n; simp [toBE, beFold, Nat.mod_one]
+  | succ k ih =>
+    intro n
+    rw [toBE_succ]
+    unfold beFold at *
+    rw [List.foldl_append, ih]
+    simp only [List.foldl_cons, List.foldl_nil]
+    rw [Nat.pow_succ, Nat.mul_comm (256 ^ k) 256, Nat.mod_mul, Nat.mul_comm]
+    omega
+
+theorem bytesToWord_wordToBytes (v : W) : bytesToWord (wordToBytes v) = v := by
+  unfold bytesToWord
+  rw [foldl_map_toNat]
+  have : (wordToBytes v).map (·.toNat) = toBE 32 v.toNat := by
+    unfold wordToBytes toBE
+    rw [List.map_map]
+    apply List.map_congr_left
+    intro j _
+    simp
+  rw [this]
+  have h := beFold_toBE 32 v.toNat
+  unfold beFold at h
+  rw [h]
+  apply BitVec.eq_of_toNat_eq
+  simp
+  have := v.isLt
+  omega
+
+theorem pushZeros_get : ∀ (k : Nat) (m : ByteArray) (j : Nat), (pushZeros k m)[j]! = m[j]! := by
+  intro k
+  induction k with
+  | zero => intro m j; rfl
+  | succ k ih =>
+    intro m j
+    unfold pushZeros
+    rw [ih, ByteArray.getElem!_push]
+    split
+    · next h => subst h; rw [getElem!_neg m m.size (by omega)]; rfl
+    · rfl
+
+/-- growing the memory changes no byte (`[j]!` reads 0 beyond the size, and the new bytes are 0) -/
+theorem memGrow_get (m : ByteArray) (n j : Nat) : (memGrow m n)[j]! = m[j]! := by
+  unfold memGrow
+  split
+  · rfl
+  · exact pushZeros_get _ _ _
+
+theorem wordToBytes_length (v : W) : (wordToBytes v).length = 32 := by simp [wordToBytes]
+
+/-- MSTORE memory content, byte by byte -/
+theorem mstore_memory_bytes (m : ByteArray) (idx : Nat) (v : W) (j : Nat) :
+    (writeBytes (memGrow m (idx + 32)) idx (wordToBytes v))[j]! =
+      if idx ≤ j ∧ j < idx + 32 then (wordToBytes v)[j - idx]! else m[j]! := by
+  rw [writeBytes_get _ _ _ _ (by rw [wordToBytes_length]; exact memGrow_size_ge _ _), wordToBytes_length,
+    memGrow_get]
+
+theorem get!_eq_getElem! (bs : ByteArray) (i : Nat) : bs.get! i = bs[i]! := by
+  have e1 : bs.get! i = bs.data[i]! := by cases bs; rfl
+  rw [e1]
+  by_cases h : i < bs.size
+  · rw [getElem!_pos bs i h, getElem!_pos bs.data i h]; rfl
+  · rw [getElem!_neg bs i h, getElem!_neg bs.data i h]
+
+theorem toList_loop (bs : ByteArray) : ∀ (n i : Nat) (r : List UInt8), bs.size - i = n →
+    ByteArray.toList.loop bs i r = r.reverse ++ (List.range' i n).map (fun k => bs[k]!) := by
+  intro n
+  induction n with
+  | zero =>
+    intro i r h
+    unfold ByteArray.toList.loop
+    have : ¬ i < bs.size := by omega
+    simp [this]
+  | succ n ih =>
+    intro i r h
+    unfold ByteArray.toList.loop
+    have : i < bs.size := by omega
+    simp only [this, if_true]
+    rw [ih (i + 1) _ (by omega)]
+    simp [List.range'_succ, get!_eq_getElem!]
+
+theorem byteArray_toList (bs : ByteArray) : bs.toList = (List.range bs.size).map (fun k => bs[k]!) := by
+  unfold ByteArray.toList
+  rw [toList_loop bs bs.size 0 [] (by omega)]
+  simp [List.range_eq_range']
+
+theorem extract_get (m : ByteArray) (a b k : Nat) (hb : b ≤ m.size) (hk : k < b - a) :
+    (m.extract a b)[k]! = m[a + k]! := by
+  have hs : (m.extract a b).size = b - a := by rw [ByteArray.size_extract]; omega
+  rw [getElem!_pos _ k (by omega), getElem!_pos m (a + k) (by omega)]
+  exact ByteArray.getElem_extract _
+
+theorem mslice_eq (m : ByteArray) (off len : Nat) (h : off + len ≤ m.size) :
+    mslice m off len = (List.range len).map (fun k => m[off + k]!) := by
+  unfold mslice
+  rw [byteArray_toList]
+  have hs : (m.extract off (off + len)).size = len := by rw [ByteArray.size_extract]; omega
+  rw [hs]
+  apply List.map_congr_left
+  intro k hk
+  exact extract_get m off (off + len) k h (by have := List.mem_range.mp hk; omega)
+
+theorem mslice_written (m : ByteArray) (idx : Nat) (v : W) :
+    mslice (writeBytes (memGrow m (idx + 32)) idx (wordToBytes v)) idx 32 = wordToBytes v := by
+  have hsz : idx + 32 ≤ (writeBytes (memGrow m (idx + 32)) idx (wordToBytes v)).size := by
+    rw [writeBytes_size]; exact memGrow_size_ge _ _
+  rw [mslice_eq _ _ _ hsz]
+  apply List.ext_getElem
+  · simp [wordToBytes_length]
+  · intro k h1 h2
+    simp only [List.length_map, List.length_range] at h1
+    rw [List.getElem_map, List.getElem_range, mstore_memory_bytes]
+    have : idx ≤ idx + k ∧ idx + k < idx + 32 := by omega
+    simp only [this, and_self, if_true]
+    rw [show idx + k - idx = k by omega, getElem!_pos _ k h2]
+
+theorem memGrow_of_le (m : ByteArray) (n : Nat) (h : n ≤ m.size) : memGrow m n = m := by
+  unfold memGrow; simp [h]
+
+theorem stepOther_mload (env : Env) (s : St) : stepOther env s 0x51 = (match s.stack with
+    | idx :: rest =>
+      match memRegion s.memory idx 32#256 with
+      | .error e => .error e
+      | .ok (m, none) => .ok { s with stack := 0#256 :: rest, memory := m, pc := s.pc + 1 }
+      | .ok (m, some (o, n)) =>
+        .ok { s with stack := bytesToWord (mslice m o n) :: rest, memory := m, pc := s.pc + 1 }
+    | _ => .error .stackUnderflow) := rfl
+
 end BA.Evm
